@@ -27,7 +27,7 @@ FLAGS = {
     "--max-sessions": ["1", "0"], "--max-receivers-per-sender": ["1", "0"], "--max-message-bytes": ["2048", "0"],
     "--ws-connects-per-min": ["120", "0"], "--ws-connects-burst": ["3", "0"], "--ws-msgs-per-sec": ["5", "0"], "--ws-msgs-burst": ["5", "0"],
     "--session-creates-per-min": ["60", "0"], "--session-creates-burst": ["1", "0"], "--max-ws-connections": ["2", "0"],
-    "--ws-idle-timeout": ["1s", "0"], "--session-timeout": ["5s", "0"],
+    "--ws-idle-timeout": ["5s", "0"], "--session-timeout": ["5s", "0"],
 }
 TURN_SPELLINGS = [  # (flag value, tls, host:port)
     ("turn:relay.example.org:3478", False, "relay.example.org:3478"), ("turn://relay.example.org:3478", False, "relay.example.org:3478"),
